@@ -103,6 +103,12 @@ pub fn run(case: &Value, ctx: &Ctx) -> Outcome {
                         _ => args.extend(["-s".into(), "sum".into(), "--precision".into(), prec.clone()]),
                     }
                     if via == "file" && tool != "stat" {
+                        if s["stale"].as_bool().unwrap_or(false) {
+                            // the destination already exists with older, longer content (a previous, larger spectrum)
+                            let old = if fmt == "npy" { cli::write_npy(&[40, 40], &vec![7.0; 1600]) } else { cli::write_text(&[40, 40], &vec![7.0; 1600], 6) };
+                            std::fs::create_dir_all(format!("{}/files", ctx.work)).ok();
+                            std::fs::write(&outfile, old).expect("write stale file");
+                        }
                         args.extend(["-o".into(), outfile.clone()]);
                     }
                     if let Some(p) = &in_path {
